@@ -113,6 +113,8 @@ func main() {
 		os.Exit(superviseCheck(properties[rest[0]], tier, envSeed()))
 	case "worker":
 		os.Exit(workerMain(f, rest))
+	case "racerun":
+		os.Exit(raceRunMain(f))
 	case "solo":
 		os.Exit(soloMain(f, rest))
 	case "replay":
